@@ -59,6 +59,7 @@
 (assert (forall ((b Bytes) (lo Int) (hi Int)) (! (=> (and (<= 0 lo) (<= lo hi) (<= hi (blen b))) (= (blen (bsub b lo hi)) (- hi lo))) :pattern ((bsub b lo hi)))))
 (assert (forall ((b Bytes)) (! (= (bsub b 0 (blen b)) b) :pattern ((bsub b 0 (blen b))))))
 (assert (forall ((v Int)) (! (= (blen (bytes1 v)) 1) :pattern ((bytes1 v)))))
+(assert (forall ((v Int)) (! (= (bset (bzeros 1) 0 v) (bytes1 v)) :pattern ((bset (bzeros 1) 0 v)))))
 
 ;@module bits
 (declare-fun bitand (Int Int) Int)
@@ -69,6 +70,13 @@
 (assert (forall ((n Int)) (! (>= (pow2 n) 1) :pattern ((pow2 n)))))
 
 ;@module floats
+(declare-fun float.exp2 (Float) Float)
+(declare-const float.c._16 Float)
+(declare-const float.c._65536 Float)
+(declare-fun int.of.float.uint32 (Float) Int)
+(assert (= (float.exp2 float.c._16) float.c._65536))
+(assert (= (int.of.float.uint32 float.c._65536) 65536))
+(assert (forall ((f Float)) (! (and (<= 0 (int.of.float.uint32 f)) (< (int.of.float.uint32 f) 4294967296)) :pattern ((int.of.float.uint32 f)))))
 (declare-fun float.of.int (Int) Float)
 (declare-fun float.add (Float Float) Float)
 (declare-fun float.sub (Float Float) Float)
@@ -118,12 +126,14 @@
 (declare-fun sha256 (Bytes) Bytes)
 (assert (forall ((b Bytes)) (! (= (blen (sha256 b)) 32) :pattern ((sha256 b)))))
 
-;@module group
+;@module group bytes hex
 ;@gotype github.com/decred/dcrd/dcrec/secp256k1/v4.PublicKey
 ;@gotype github.com/decred/dcrd/dcrec/secp256k1/v4.PrivateKey
 ;@gotype github.com/decred/dcrd/dcrec/secp256k1/v4.ModNScalar
 ;@gotype github.com/decred/dcrd/dcrec/secp256k1/v4.JacobianPoint
 ;@gotype github.com/decred/dcrd/dcrec/secp256k1/v4.FieldVal
+; Abstract prime-order group (DESIGN.md §5.5): points Pt with addition,
+; scalars Sc with ring operations, scalar multiplication.
 (declare-sort Pt 0)
 (declare-sort Sc 0)
 (declare-const pt.O Pt)
@@ -140,14 +150,41 @@
 (declare-fun pt.parse (Bytes) Pt)
 (declare-fun pt.parseok (Bytes) Bool)
 (declare-fun pk.pt (github.com/decred/dcrd/dcrec/secp256k1/v4.PublicKey) Pt)
-(declare-fun mk.pk (Pt) github.com/decred/dcrd/dcrec/secp256k1/v4.PublicKey)
+(declare-fun jp.pt (github.com/decred/dcrd/dcrec/secp256k1/v4.JacobianPoint) Pt)
+(declare-fun jp.affine (github.com/decred/dcrd/dcrec/secp256k1/v4.JacobianPoint) Bool)
+(declare-fun affine.pt (github.com/decred/dcrd/dcrec/secp256k1/v4.FieldVal github.com/decred/dcrd/dcrec/secp256k1/v4.FieldVal) Pt)
 (declare-fun sc.of (github.com/decred/dcrd/dcrec/secp256k1/v4.ModNScalar) Sc)
 (declare-fun sc.ser (Sc) Bytes)
 (declare-fun sc.frombytes (Bytes) Sc)
-(declare-fun h2c (Bytes) Pt)
 (assert (forall ((p Pt)) (! (and (= (blen (pt.ser p)) 33) (pt.parseok (pt.ser p)) (= (pt.parse (pt.ser p)) p)) :pattern ((pt.ser p)))))
-(assert (forall ((p Pt)) (! (= (pk.pt (mk.pk p)) p) :pattern ((mk.pk p)))))
+(assert (forall ((j github.com/decred/dcrd/dcrec/secp256k1/v4.JacobianPoint)) (! (=> (jp.affine j) (= (affine.pt (github.com/decred/dcrd/dcrec/secp256k1/v4.JacobianPoint.X j) (github.com/decred/dcrd/dcrec/secp256k1/v4.JacobianPoint.Y j)) (jp.pt j))) :pattern ((jp.affine j)))))
+; hash to curve, NUT-00: sha256(DS || msg), then sha256(h || le32(c)) for
+; c = 0, 1, ... until 02 || hash parses as a point
+;@strlit str.DS "Secp256k1_HashToCurve_Cashu_"
+(declare-const str.DS Str)
+(declare-fun le32 (Int) Bytes)
+(assert (forall ((c Int)) (! (= (blen (le32 c)) 4) :pattern ((le32 c)))))
+(define-fun h2c.cand ((h Bytes) (c Int)) Bytes (bcat (bytes1 2) (sha256 (bcat h (le32 c)))))
+(define-unfold h2c.search ((h Bytes) (c Int)) Pt (ite (pt.parseok (h2c.cand h c)) (pt.parse (h2c.cand h c)) (h2c.search h (+ c 1))))
+; HashToCurve gives up after 2^16 counters (never in practice): h2c.ok says it did not
+(declare-fun h2c.ok (Bytes) Bool)
+(define-fun h2c ((m Bytes)) Pt (h2c.search (sha256 (bcat (bytesOf str.DS) m)) 0))
 (define-fun Yof ((s Str)) Str (hexenc (pt.ser (h2c (bytesOf s)))))
+
+;@module group.ax
+;@attach group
+; abelian group and module laws
+(assert (forall ((a Pt) (b Pt)) (! (= (padd a b) (padd b a)) :pattern ((padd a b)))))
+(assert (forall ((a Pt) (b Pt) (c Pt)) (! (= (padd (padd a b) c) (padd a (padd b c))) :pattern ((padd (padd a b) c)))))
+(assert (forall ((a Pt)) (! (= (padd a pt.O) a) :pattern ((padd a pt.O)))))
+(assert (forall ((a Pt)) (! (= (padd a (pneg a)) pt.O) :pattern ((pneg a)))))
+(assert (forall ((k Sc) (a Pt) (b Pt)) (! (= (smul k (padd a b)) (padd (smul k a) (smul k b))) :pattern ((smul k (padd a b))))))
+(assert (forall ((k Sc) (l Sc) (a Pt)) (! (= (smul (sadd k l) a) (padd (smul k a) (smul l a))) :pattern ((smul (sadd k l) a)))))
+(assert (forall ((k Sc) (l Sc) (a Pt)) (! (= (smul (smulS k l) a) (smul k (smul l a))) :pattern ((smul (smulS k l) a)))))
+(assert (forall ((k Sc) (l Sc) (a Pt)) (! (= (smul k (smul l a)) (smul l (smul k a))) :pattern ((smul k (smul l a))))))
+(assert (forall ((k Sc) (a Pt)) (! (= (smul (sneg k) a) (pneg (smul k a))) :pattern ((smul (sneg k) a)))))
+(assert (forall ((k Sc) (l Sc)) (! (= (smulS k l) (smulS l k)) :pattern ((smulS k l)))))
+(assert (forall ((k Sc) (l Sc)) (! (= (sadd k l) (sadd l k)) :pattern ((sadd k l)))))
 
 ;@module errors
 (declare-fun err.is (Iface Iface) Bool)
@@ -242,3 +279,21 @@
 ;@module nut10
 (declare-fun nut10.ok (Str) Bool)
 (declare-fun nut10.parse (Str) cashu/nuts/nut10.WellKnownSecret)
+
+;@module reflect
+(declare-fun deepeq (Iface Iface) Bool)
+(assert (forall ((a Iface)) (! (deepeq a a) :pattern ((deepeq a a)))))
+
+;@module lockspec nut10
+;@ghost hvs.fails Int
+;@monotone hvs.fails
+; verdicts of the lock verifiers as functions of (proof, secret, time read
+; during the call) - assumed deterministic (DESIGN.md §8 C12/C13)
+(declare-fun p2pk.verdict (cashu.Proof cashu/nuts/nut10.WellKnownSecret Int) Iface)
+(declare-fun htlc.verdict (cashu.Proof cashu/nuts/nut10.WellKnownSecret Int) Iface)
+(declare-fun nut11.keysok (cashu/nuts/nut10.WellKnownSecret) Bool)
+(declare-fun nut11.keysof (cashu/nuts/nut10.WellKnownSecret) Ref)
+(declare-fun nut11.keyserr (cashu/nuts/nut10.WellKnownSecret) Iface)
+(declare-fun tags.ok (Ref) Bool)
+(declare-fun tags.parse (Ref) cashu/nuts/nut11.P2PKTags)
+(declare-fun tags.err (Ref) Iface)
